@@ -1,5 +1,6 @@
 import PPModel.Base.Sexp
 import PPModel.Mod.PR
+import PPModel.Mod.PRHeap
 namespace PP.Driver
 open PP PP.Sexp PP.PR PP.PyList
 
@@ -141,6 +142,7 @@ def runHist (s : PR Sexp) : List (Op Sexp (PR Sexp)) → List Sexp
     .list (outSexp r.2 :: stateViews r.1) :: runHist r.1 ops
 
 def prHandle : List Sexp → Option Sexp
+  | [.atom "prshare", .str kind, .str probe] => (PRHeap.sharing kind probe).map ofBool
   | [.atom "prhist", st, .list ops] => do
       let ops ← ops.mapM op?
       match ← start? 64 st with
